@@ -167,6 +167,22 @@ def gen_script(r, max_steps):
     return sc
 
 
+_IX: list = []
+
+
+def ix(a, turn):
+    """an index in another spelling: every third one is a member of an IntEnum or a bool (both ARE ints)"""
+    if not isinstance(a, int) or isinstance(a, bool) or turn % 3 != 2:
+        return a
+    if a in (0, 1) and turn % 2:
+        return bool(a)
+    if not _IX:
+        import enum
+
+        _IX.append(enum.IntEnum("Ix", {f"i{k}": k for k in range(64)}))
+    return _IX[0](a) if a < 64 else a
+
+
 def mk_op(cmd):
     from hugr import ops
     from hugr.std.logic import Not
@@ -233,7 +249,9 @@ def run_script(ctx, sc, stratum="script"):
         if any(a < len(model) for a in untracked):
             ctx.feat("feature:add-index-names-freed-hole")
         op_t, op_p = mk_op(cmd), mk_op(cmd)
-        targs = [a if isinstance(a, int) else tw(a) for a in args]
+        targs = [ix(a, step + pos_) if isinstance(a, int) else tw(a) for pos_, a in enumerate(args)]
+        if any(type(t_) is not int and isinstance(t_, int) for t_ in targs):
+            ctx.feat("feature:index-as-int-subclass")
         ctx.count("monitor:index-error")
         com = again if again is not None else op_t(*targs)
         before = list(com.incoming)
